@@ -106,9 +106,9 @@ CHECKS = {
     "C12": {"engine": "e_mapped",
             "quick": {"shards": 8, "cases": 1500}, "thorough": {"shards": 16, "cases": 30000}},
     "C13": {"engine": "e_multidim", "fuzz": [{"engine": "e_multidim", "prop": "C13", "seconds": 300, "jobs": 6, "tape_words": 256}],
-            "quick": {"shards": 8, "cases": 2000}, "thorough": {"shards": 16, "cases": 60000}},
+            "quick": {"shards": 8, "cases": 10000}, "thorough": {"shards": 16, "cases": 60000}},
     "C14": {"engine": "e_multidim",
-            "quick": {"shards": 8, "cases": 2000}, "thorough": {"shards": 16, "cases": 60000}},
+            "quick": {"shards": 8, "cases": 10000}, "thorough": {"shards": 16, "cases": 60000}},
     "C05": {"engine": "e_dynamic", "fuzz": [{"engine": "e_dynamic", "prop": "C05", "seconds": 300, "jobs": 6, "tape_words": 2048}],
             "quick": {"shards": 8, "cases": 1200}, "thorough": {"shards": 16, "cases": 30000}},
     "C06": {"engine": "e_dynamic",
@@ -118,7 +118,7 @@ CHECKS = {
     "C18": {"engine": "e_cif",
             "quick": {"shards": 8, "cases": 2500}, "thorough": {"shards": 16, "cases": 60000}},
     "C20": {"engine": "e_reject",
-            "quick": {"shards": 8, "cases": 2500}, "thorough": {"shards": 16, "cases": 60000}},
+            "quick": {"shards": 8, "cases": 12000}, "thorough": {"shards": 16, "cases": 60000}},
     "C17": {"variant": "asan", "mode": "mem", "replay_all_regressions": True,
             "fuzz": [{"engine": "e_variants", "prop": "C10", "seconds": 240, "jobs": 4}, {"engine": "e_multidim", "prop": "C13", "seconds": 240, "jobs": 4, "tape_words": 256},
                      {"engine": "e_variants", "prop": "C08", "seconds": 240, "jobs": 4}],
